@@ -212,6 +212,16 @@ def check_tournament(costs, ranked, pair, coin):
     return out
 
 
+def large_columns(n):
+    def column(mult, off):
+        step = mult
+        while math.gcd(step, n) != 1:
+            step += 1
+        return tuple(float((x * step + off) % n) + 0.125 * ((x * 7) % 5) / 5.0 for x in range(n))
+    c1, c2, c3 = column(1, 0), column(37, 3), column(11, 5)
+    return [[c1], [c1, c2], [c2, c1[::-1]], [c1, c2, c3]]
+
+
 def _shard(shard, col: Collector):
     kind = shard[0]
     if kind == "trunc":
@@ -227,6 +237,21 @@ def _shard(shard, col: Collector):
                 for key, msg in check_truncate(vs, fn, k):
                     col.violation(key, "trunc", msg, {"vectors": vs, "fn": fn, "k": k})
         col.sample({"kind": "truncate", "vectors": list(fixed) + [vecs[-1]] * (n - len(fixed)), "costs": fn, "k": max(1, n - 1)}, 1)
+    elif kind == "trunc_big":
+        # populations far beyond the enumerated sizes (structured families of c02), cut at sizes around n/2 and n
+        from .c02 import big_population
+        _, n = shard
+        for family in ("chain", "antichain", "grid", "dups", "twolevel", "lcg"):
+            if n >= 1000 and family in ("grid", "twolevel", "lcg"):
+                continue
+            vs = [(c[0], c[1]) for c in big_population(family, n)]
+            for k in sorted(set([1, 2, n // 2, n // 2 + 1, n - 1, n, n + 1])):
+                col.case()
+                col.nontrivial(("tbig", family, n, k))
+                col.count("large_truncations")
+                for key, msg in check_truncate(vs, "id", k):
+                    col.violation(key + ":large-population:" + family, "trunc_big", msg[:500], {"family": family, "n": n, "k": k})
+        col.sample({"kind": "truncate large structured populations", "n": n}, 1)
     elif kind == "crowd_big":
         # larger fronts, two objectives: one column ascending, the other every rotation / reversal of an uneven ladder
         _, n = shard
@@ -281,6 +306,15 @@ def _shard(shard, col: Collector):
                                           "designs %r, %r, %r; the first was moved %s onto the second after a truncation: truncate returned %r" % (a, b, c, how, kept),
                                           {"a": a, "b": b, "c": c, "how": how})
         col.sample({"kind": "truncate after an individual moved onto another design", "designs": [vecs[0], vecs[1], vecs[2]]}, 1)
+    elif kind == "crowd_large":
+        # large tie-free fronts, 1-3 objectives: exact formula
+        _, n = shard
+        for cols in large_columns(n):
+            col.case()
+            col.nontrivial(("cl", n, len(cols)))
+            for key, msg in check_crowding(list(cols), True):
+                col.violation(key + ":large-front", "crowd_large", msg[:400], {"n": n, "m": len(cols)})
+        col.sample({"kind": "crowding on large fronts", "n": n}, 1)
     elif kind == "crowd_exact":
         _, n, m, first = shard
         vals = UNEVEN[:n] if n <= len(UNEVEN) else first
@@ -324,6 +358,15 @@ def replay(sub, case):
     t = lambda v: tuple(v)
     if sub == "trunc":
         return check_truncate([t(v) for v in case["vectors"]], case["fn"], case["k"])
+    if sub == "crowd_large":
+        out = []
+        for cols in large_columns(case["n"]):
+            if len(cols) == case["m"]:
+                out += check_crowding(list(cols), True)
+        return out
+    if sub == "trunc_big":
+        from .c02 import big_population
+        return check_truncate([(c[0], c[1]) for c in big_population(case["family"], case["n"])], "id", case["k"])
     if sub == "crowd":
         return check_crowding([t(c) for c in case["columns"]], case["exact"])
     if sub == "tmoved":
@@ -372,6 +415,8 @@ def run(tier, seed):
     # crowding
     shards += [("crowd_exact", n, 1, tuple(float(x * x) for x in range(n))) for n in (7, 8, 12)]
     shards += [("crowd_big", n) for n in (7, 9)] + [("crowd_scale",), ("trunc_moved",)]
+    shards += [("trunc_big", n) for n in (31, 32, 33, 63, 64, 65, 100, 127, 128, 129, 255, 256, 257) + ((1000,) if tier == "thorough" else ())]
+    shards += [("crowd_large", n) for n in (31, 32, 33, 64, 65, 100, 128, 129, 257, 1000)]
     for n in (1, 2, 3, 4, 5) + ((6,) if tier == "thorough" else ()):
         for m in (1, 2, 3):
             if n >= 5 and m == 3 and tier != "thorough":
